@@ -85,9 +85,23 @@ def load_known():
         return json.load(f)["findings"]
 
 
+def _clear_caches():
+    """Memo tables keyed by object identity or callee key must not survive from one analysed program to the next
+    (the thorough tier analyses many scratch copies in one process)."""
+    from . import dep
+    dep._DEF_CACHE.clear()
+    dep._SUMMARY_CACHE.clear()
+    try:
+        from .rules import panic_common
+        panic_common._DB_CACHE.clear()
+    except Exception:
+        pass
+
+
 def run_property(pid, tier="quick", repo=None, write_evidence=True, out=sys.stdout):
     t0 = time.time()
     mod = importlib.import_module("ea.rules." + pid.lower())
+    _clear_caches()
     ctx = Ctx(tier=tier, repo=repo)
     try:
         mod.run(ctx)
